@@ -27,6 +27,8 @@ import dns.tokenizer
 class Base64Base(dns.rdata.Rdata):
     """Base type for an rdata whose value is a single base64-encoded bytes."""
 
+    __slots__ = ["value"]
+
     def __init__(self, rdclass, rdtype, value):
         super().__init__(rdclass, rdtype)
         self.value = self._as_bytes(value)
